@@ -114,6 +114,8 @@ def gen_lit(rng):
     if r < 0.12:     # malformed variants
         s = rng.choice([s + "_", s.replace("_", "__", 1) if "_" in s else s + "__1", pre, pre + "_" + body, s + rng.choice("29gGzZ"),
                         "_" + s, "0" + s, pre + body[:1] + "_" + body[1:] + "_"])
+    if rng.random() < 0.35:
+        s = "-" + s      # unary minus: folded by compiler/resolve.go (resolveUnaryExpression + resolveInt)
     return s.encode()
 
 
@@ -187,7 +189,7 @@ def gen_lines(rng, n):
             items["int"].append("%d" % gen_int(rng))
         elif r < 0.88:
             src = gen_lit(rng)
-            if CLEAN_LIT.match(src):
+            if CLEAN_LIT.match(src[1:] if src[:1] == b"-" else src):
                 items["lit"].append(hx(src))
             else:
                 single.append("insp\tlit\t" + hx(src))
@@ -230,11 +232,12 @@ def judge_rt(kind, item, ins, back):
 
 
 def judge_lit(src, ans):
-    m = CLEAN_LIT.match(src)
+    neg = src[:1] == b"-"
+    m = CLEAN_LIT.match(src[1:] if neg else src)
     if not m:
         return None      # outside the clean literal grammar: correspondence only
     k = m.lastgroup
-    want = positional(m.group(k).replace(b"_", b"").decode(), LIT_BASE[k])
+    want = positional(m.group(k).replace(b"_", b"").decode(), LIT_BASE[k]) * (-1 if neg else 1)
     if ans != "%d" % want:
         return f"literal {src.decode()!r} evaluates to {ans!r}, its positional value is {want}"
     return None
@@ -382,6 +385,8 @@ def gen_litx(rng):
     if base == 16 and rng.random() < 0.3:
         digs = digs.upper()
     src = ("0" + letter if letter else "") + digs + SUFFIX[k]
+    if k.startswith("i") and rng.random() < 0.35:
+        src = "-" + src
     if base == 16 and k in ("u8", "u16", "u32", "u64", "uint") and digs.lower().endswith(("e", "f", "b")):
         pass
     return "inspx\tlitx\t" + hx(src.encode())
@@ -439,7 +444,8 @@ def aux_oracle(line, ans):
         return None
     if op == "litx":
         src = unhx(f[2])
-        m = LITX.match(src)
+        neg = src[:1] == b"-"
+        m = LITX.match(src[1:] if neg else src)
         if not m:
             return None
         k = [g for g in ("x", "d", "o", "q", "b", "t") if m.group(g) is not None][0]
@@ -448,6 +454,8 @@ def aux_oracle(line, ans):
         lo, hi = FIX[kind]
         if val > hi:
             return None if ans == "err" else f"literal {src.decode()!r} is out of range for {kind} but evaluates to {ans!r}"
+        if neg:
+            val = -val
         if ans != "ok %s:%d" % (kind, val):
             return f"literal {src.decode()!r} evaluates to {ans!r}, its positional value is {kind}:{val}"
         return None
